@@ -120,6 +120,9 @@ def run(chk):
     ex = m.method('ConeCyl', 'exclude_dofs_matrix')
     uses = {norm(n) for n in ast.walk(ex) if isinstance(n, ast.Attribute) and norm(n) == 'self.excluded_dofs'}
     chk.ob('R17.1', bool(uses), CONECYL, 'ConeCyl.exclude_dofs_matrix', 'partition uses self.excluded_dofs')
+    # the tangent and the internal force are evaluated at the requested load level
+    pyrules.check_forwarding(chk, 'R17.1', CONECYL, 'ConeCyl', 'inc', methods=('calc_kT', '_calc_NL_matrices', 'calc_fint'), floor=3,
+                             why='the prescribed amplitudes (uTM, thetaT, LA) enter the state as inc*value: the tangent is then the Jacobian of the internal force at another state')
     # R17.2 configuration agreement
     db = conecyl_db()
     gen = [k for k, v in db.items() if v.get('non-linear') not in (None, 'None') and not k.startswith('iso_')]
